@@ -160,3 +160,14 @@ claimed["C14"] = (
     "Outside the claim: wall-clock behaviour and OS scheduling latency (virtual time has none; native replay allows 60ms slack and only confirms violations larger than that), transports, proxies, one-directional loss, "
     "upgrades in flight, a ping delayed inside the polling queue (C19 covers that queue).",
     "5 (C14)")
+
+claimed["C07"] = (
+    "Bounded model checking / symbolic execution of the transport-swap kernel and of the 'ignore the loser' logic (the probe exchange over real sockets is not encodable): (1) server swap: old transport = the REAL "
+    "long-polling transport, new = recording; one goroutine sends two numbered messages through the socket, one runs the real upgradeTo, optionally one plays a poll request pending on the old transport, under all "
+    "interleavings at synchronisation points (preemption bound 2, 4496 schedules): every message delivered exactly once (poll response or new transport), none left in the discarded transport's queue, same-route "
+    "order kept, later sends use the new transport; (2) server candidate handling through the real maybeUpgrade (entered on its WebTransport branch so the candidate can be a recording transport) with a symbolic "
+    "scenario - probe PING then UPGRADE / any other packet type / candidate closes / silence until the upgrade timer fires (virtual clock): pong 'probe' on the candidate, UPGRADE completes the swap; every failure "
+    "closes ONLY the candidate, the socket stays open on its original transport and keeps sending there; (3) client: the real tryUpgradeTo/finishUpgradeTo with the candidate answering pong 'probe' / another pong / "
+    "another packet / nothing: UPGRADE is the first packet on the new transport, old transport discarded once, later messages on the new one; failures and the timeout leave the original transport in place, the socket open and working.",
+    "Outside the claim: the WebSocket/WebTransport handshakes, the real probe exchange, in-flight HTTP responses, reordering BETWEEN the two physical transports during the swap window, binary/text mix, client-side sends racing finishUpgradeTo.",
+    "5 (C07)")
